@@ -59,7 +59,15 @@ PROP = dict(
         "rank with 2-3 ranking attributes and many ties, orderby with tied keys mapped to its keys, max/min, nest) over collections "
         "of 12-18 members (frozen keeps up to ~8 items in insertion order); they are predicted under the identity order; the "
         "theorems cover rank and both set-pattern forms as Ex terms, the remaining shapes rest on the N-process run, error "
-        "outcomes included"],
+        "outcomes included",
+        "numeric reducers (sum, mean, median, max, min, count with . over sets of 12-20 distinct numbers - integers, halves, quarters: "
+        "every partial sum exactly representable - and with .v over 12-16 relation rows): the model computes the exact rational and "
+        "prints it as a decimal (mean cases are adjusted so that the decimal terminates); tenths are not generated (their float sum "
+        "is legitimately order-dependent)",
+        "duplicate-spelling programs: an outer set or dictionary of 13-19 members holding the same mixed-kind union set, tuple with a "
+        "set attribute, dictionary or relation in 2-3 member orders / literal forms (also as dictionary keys): count, =, &, <:, "
+        "call, |, printed text; these and the reducers are evaluated 3 resp. 2 times inside each process (observable 'unstable' if "
+        "two evaluations differ) and compared across the N processes"],
     level_text="Proof (partial): 19 Lean theorems over the C06 representation model. C07 / C07_printed: every admissible program, nested "
                "to any depth over | & &~ where with without count {x}, => and orderby (element functions ., constant, (a: .), "
                "(a: ., b: n), [.]; orderby under NoTies), rank (rank = number of strictly smaller keys, ties included) and set "
@@ -80,7 +88,9 @@ PROP = dict(
            "rel.Relation.Format", "rel.GenericTuple.Format", "rel.Array.Format", "rel.Bytes.Format", "rel.String.Format",
            "rel.reprOrderableSet", "rel.reprString", "rel.reprStr", "rel.reprEscape", "rel.TupleNameRepr", "rel.TupleOrderedNames",
            "rel.OrderedValueEnumerator", "rel.OrderBy", "rel.unionSetEnumerator.MoveNext", "rel.UnionSet.Enumerator",
-           "rel.UnionSet.OrderedValues", "rel.GenericSet.OrderedValues", "pkg/arrai.OutputValue"],
+           "rel.UnionSet.OrderedValues", "rel.GenericSet.OrderedValues", "pkg/arrai.OutputValue",
+           "rel.NewSumExpr", "rel.NewMeanExpr", "rel.NewMedianExpr", "rel.NewMaxExpr", "rel.NewMinExpr", "rel.ReduceExpr.Eval",
+           "rel.UnionSet.Hash", "rel.UnionSet.Equal"],
     env={"HARNESS_TIMEOUT_MS": "120000"},
     extra=extra,
 )
